@@ -193,6 +193,29 @@ def retBody (F : Facts03) : RetVal → List Nat
   | .leaf p v => match leafText F p v with | some t => utf8Enc t | none => []
   | .bytes cs => cs.flatMap id
 
+/-- how the result of the user function is declared to travel (`_body_style`) -/
+inductive BodyStyle where
+  | wrapped | bare | outBare
+  deriving Repr, DecidableEq
+
+/-- `_handle_rpc_nonempty`: the value HttpRpc serializes; the wrapped style unpacks the single member of the response
+    wrapper, the bare styles have the value itself -/
+def resultOf (F : Facts03) (bs : BodyStyle) (ret : RetVal) : Outcome RetVal :=
+  match bs with
+  | .wrapped => .ok ret
+  | _ => if F.bareReturnsServed then .ok ret else .crash "TypeError"
+
+/-- the body when the return type may declare a text encoding (`enc`: its codec; `none`: the protocol's UTF-8) -/
+def retBodyEnc (F : Facts03) (enc : Option (Text → List Nat)) : RetVal → List Nat
+  | .leaf p v =>
+    match leafText F p v with
+    | some t =>
+      (match enc with
+       | some e => if F.retEncDeclaredWins then e t else utf8Enc t
+       | none => utf8Enc t)
+    | none => []
+  | r => retBody F r
+
 /-! ### `_header_to_bytes`: a DateTime header is an HTTP date (RFC 1123, always GMT) -/
 
 /-- days before 1 January of year `y` (`y ≥ 1`), proleptic Gregorian: `date(y,1,1).toordinal() - 1` -/
